@@ -2,6 +2,7 @@
 
 from __future__ import annotations
 
+import json
 import random
 from collections import Counter
 
@@ -14,7 +15,8 @@ LEVEL = "exploration"
 RULE = (
     "case = (k consecutive transient failures, k in 0..13 and 'always') x (with / without context_update) x (task first / "
     "middle / last of a 1-3 task stage) x (FIFO / shuffled delivery with withheld acks), plus polling tasks with n in "
-    "0..5 polls. The ledger gives the number of executions and the context each attempt saw. Non-trivial = k>=1 or n>=1; "
+    "0..5 polls; plus the transient / polling result racing another worker's committed write to the same stage row "
+    "(persistent signal being buffered) at statement granularity. The ledger gives the number of executions and the context each attempt saw. Non-trivial = k>=1 or n>=1; "
     "distinct = (kind, k, cu, position, ntasks, order class)."
 )
 ASSUMPTIONS = ["SQLite backend", "limit = Message.max_attempts (10); executions beyond max_attempts+1 = 11 count as a broken bound (generous to either reading of 'attempts')"]
@@ -47,10 +49,91 @@ def gen_cases(tier: str, seed: int) -> list[dict]:
             ntasks = rng.randint(1, 3)
             for order in ("fifo", "random"):
                 cases.append({"kind": "poll", "k": n, "cu": False, "pos": rng.randrange(ntasks), "ntasks": ntasks, "order": order, "seed": rng.randrange(1 << 30)})
+    for rkind in ("transient", "poll"):
+        for nth in (0, 1):
+            cases.append({"kind": "race", "rkind": rkind, "k": 3, "nth": nth, "seed": seed, "sample": 60 if tier == "quick" else 2000})
     return cases
 
 
+def _race(case: dict) -> dict:
+    """A transient failure with saved progress while another worker commits a write to the
+    same stage row (a persistent signal being buffered): the progress and the retry must
+    survive the optimistic-lock conflict."""
+    import os
+
+    from .. import interleave as il
+    from ..world import World
+
+    k = case["k"]
+    kind = case["rkind"]
+    beh = {"kind": "transient", "n": k, "cu": True, "out": ["r_o"]} if kind == "transient" else {"kind": "poll", "n": k, "out": ["r_o"]}
+    spec = {"name": f"race_{kind}{k}", "confluent": True, "stages": [specs.st("a"), specs.st("b", ["a"], [beh]), specs.st("c", ["b"])]}
+    w = World()
+    cut = None
+    try:
+        w.submit(spec)
+        seen = 0
+        for _ in range(200):
+            rows = w.rows()
+            if not rows:
+                break
+            ready = w.eligible(rows)
+            st = w.snapshot_state()["stages"]
+            if ready[0]["type"] == "RunTask" and json.loads(ready[0]["payload"]).get("stage_id") == st["b"]["id"]:
+                if seen == case["nth"]:
+                    w.signal("b", "note", {"id": "s"}, True)
+                    rows = w.rows()
+                    sig = [r for r in rows if r["type"] == "SignalStage"][0]
+                    path = os.path.join(il.env.scratch_dir(), f"cut-{os.getpid()}-{random.randrange(1 << 40)}.db")
+                    w.copy_db(path)
+                    cut = (path, [ready[0]["id"], sig["id"]])
+                    break
+                seen += 1
+            w.deliver(ready[0]["id"])
+    finally:
+        w.close()
+    obs: Counter = Counter()
+    keys: set = set()
+    out = []
+    if cut is None:
+        return {"violations": [], "obs": {"cut_point_not_reached": 1}, "keys": []}
+    db, rows = cut
+    try:
+        na, nb = il.solo_length(db, rows[0]), il.solo_length(db, rows[1])
+        rng = random.Random(case["seed"] * 113 + k)
+        for sc in il.bound_schedules(na, nb, 2, sample=case["sample"], rng=rng):
+            run, info = il.run_pair(db, rows, il.Segments(sc), max_steps=200)
+            obs["evaluations"] += 1
+            if run is None:
+                obs["scheduler_watchdog"] += 1
+                continue
+            if info["switches"]:
+                obs["race_schedules_with_switch"] += 1
+                keys.add(f"race:{kind}:{k}:{info['trace_hash']}")
+            recs = [r for r in run.ledger if r["ref"] == "b"]
+            counters = [r.get("counter") for r in recs]
+            first = counters[0] if counters else 0
+            if counters != list(range(first, first + len(counters))):
+                out.append(viol("C14/context-update-lost" if kind == "transient" else "C14/poll-context-lost", f"attempts after the race saw progress counters {counters} (a concurrent write to the stage row raced the {kind} result); schedule {sc}"))
+            b = run.state["stages"]["b"]
+            if b["status"] != "SUCCEEDED" or run.state["wf"] != "SUCCEEDED":
+                out.append(viol("C14/retry-did-not-complete", f"stage {b['status']} workflow {run.state['wf']} after the race; counters {counters}"))
+            if "_buffered_signals" not in b["context"]:
+                out.append(viol("C14/concurrent-write-lost", "the buffered signal written by the other worker is gone"))
+    finally:
+        os.unlink(db)
+    seen_s = set()
+    uniq = []
+    for x in out:
+        if x["sig"] not in seen_s:
+            seen_s.add(x["sig"])
+            uniq.append(x)
+    return {"violations": uniq, "obs": dict(obs), "keys": sorted(keys)}
+
+
 def run_case(case: dict) -> dict:
+    if case.get("kind") == "race":
+        return _race(case)
     spec = _spec(case["kind"], case["k"], case["cu"], case["pos"], case["ntasks"])
     k = case["k"]
     noack = 0.25 if case["order"] == "random" else 0.0
